@@ -24,7 +24,7 @@ variables.
 """
 
 from collections.abc import MutableMapping
-from contextlib import contextmanager
+from contextlib import ExitStack, contextmanager
 from struct import pack, unpack, unpack_from
 
 from .ebpf import (
@@ -47,20 +47,29 @@ class HashGlobalVar(Expression):
 
     @contextmanager
     def get_address(self, dst, long, force=False):
-        with self.ebpf.save_registers([i for i in range(6) if i != dst]), \
-                self.ebpf.get_stack(4) as stack:
-            self.ebpf.append(Opcode.ST, 10, 0, stack, self.count)
-            self.ebpf.r1 = self.ebpf.get_fd(self.fd)
-            self.ebpf.r2 = self.ebpf.r10 + stack
-            self.ebpf.call(FuncId.map_lookup_elem)
-            with self.ebpf.r0 == 0:
-                self.ebpf.exit()
-            if dst != 0 and force:
-                self.ebpf.append(Opcode.MOV + Opcode.LONG + Opcode.REG, dst,
-                                 0, 0, 0)
-            else:
-                dst = 0
-        yield dst, self.fmt
+        with ExitStack() as exitStack:
+            if dst != 0 and 0 in self.ebpf.owners:
+                # r0 is in use: it is saved and restored around the call,
+                # so the address must be handed out in another register
+                if dst is None:
+                    dst = exitStack.enter_context(
+                        self.ebpf.get_free_register(None))
+                force = True
+            with self.ebpf.save_registers(
+                    [i for i in range(6) if i != dst]), \
+                    self.ebpf.get_stack(4) as stack:
+                self.ebpf.append(Opcode.ST, 10, 0, stack, self.count)
+                self.ebpf.r1 = self.ebpf.get_fd(self.fd)
+                self.ebpf.r2 = self.ebpf.r10 + stack
+                self.ebpf.call(FuncId.map_lookup_elem)
+                with self.ebpf.r0 == 0:
+                    self.ebpf.exit()
+                if dst != 0 and force:
+                    self.ebpf.append(Opcode.MOV + Opcode.LONG + Opcode.REG,
+                                     dst, 0, 0, 0)
+                else:
+                    dst = 0
+            yield dst, self.fmt
 
 
 class HashGlobalVarDesc:
